@@ -114,7 +114,7 @@ def run_sim(faults, n=2, seed=0):
     ctx = kernel.Ctx("C13", case)
     sched = Scheduler(random.Random(seed))
     world = World(sched, case, ctx)
-    patched = Patched(sched, ctx)
+    patched = Patched(sched, ctx, fork_inherit=True)  # the real runs use the default context, which forks
     try:
         from agilerl.vector.pz_async_vec_env import AsyncPettingZooVecEnv
 
